@@ -243,6 +243,33 @@ func constValTerm(c constant.Value, T types.Type) *Term {
 }
 
 func (e *SpecEnv) local(name string) (SVal, bool) {
+	if v, ok := e.localAsWritten(name); ok {
+		return v, true
+	}
+	// a variable the function declared under another name when the contract was written (names.go)
+	var fns []*ssa.Function
+	if e.fr != nil {
+		fns = append(fns, e.fr.fn)
+	}
+	if e.fr2 != nil {
+		for i := len(e.st.frames) - 1; i >= 1; i-- {
+			fns = append(fns, e.st.frames[i].fn)
+		}
+	}
+	for _, fn := range fns {
+		if nn := renamesOf(e.v.P, fn)[name]; nn != "" {
+			if v, ok := e.vars[nn]; ok {
+				return v, true
+			}
+			if v, ok := e.localAsWritten(nn); ok {
+				return v, true
+			}
+		}
+	}
+	return SVal{}, false
+}
+
+func (e *SpecEnv) localAsWritten(name string) (SVal, bool) {
 	if v, ok := e.local1(name); ok {
 		return v, true
 	}
@@ -374,6 +401,10 @@ func (e *SpecEnv) field(x SVal, name string, n ast.Node) SVal {
 			}
 		}
 	}
+	if now := fieldRenames(x.Ty)[name]; now != "" {
+		// a field that had this name when the contract was written (names.go)
+		return e.field(x, now, n)
+	}
 	e.fail(n, "no field %s in %s", name, x.Ty)
 	return SVal{}
 }
@@ -390,6 +421,9 @@ func hasField(T types.Type, name string) bool {
 		if st.Field(i).Embedded() && hasField(st.Field(i).Type(), name) {
 			return true
 		}
+	}
+	if now := fieldRenames(T)[name]; now != "" {
+		return hasField(T, now)
 	}
 	return false
 }
